@@ -102,6 +102,13 @@ func fileFixtures(r *rand.Rand, thorough bool) []*fileFixture {
 		st2 := store.New()
 		root2, _ := handFile(st2, [][]byte{[]byte("hel"), []byte("lo "), {}, []byte("wor"), {}, []byte("ld")}, handFileOpts{Width: 2, PBLeaves: false})
 		out = append(out, mkFixture("hand-emptychunk-raw", st2, root2, content))
+		// empty chunks at the very end of the file (blocks after the last data byte)
+		st3 := store.New()
+		root3, _ := handFile(st3, [][]byte{[]byte("hel"), []byte("lo "), []byte("wor"), []byte("ld"), {}, {}}, handFileOpts{Width: 2, PBLeaves: true, LeafType: 2})
+		out = append(out, mkFixture("hand-trailingempty-pb", st3, root3, content))
+		st4 := store.New()
+		root4, _ := handFile(st4, [][]byte{[]byte("hello "), []byte("world"), {}}, handFileOpts{Width: 3, PBLeaves: false})
+		out = append(out, mkFixture("hand-trailingempty-raw", st4, root4, content))
 	}
 	if thorough {
 		build("default-width-349", 174, "size-1", 349, "rand")
